@@ -23,7 +23,7 @@ MAXB = 16 * 1024 * 1024
 I64MIN, I64MAX = -(1 << 63), (1 << 63) - 1
 U64MAX = (1 << 64) - 1
 
-SHAPES = ["literal", "concat", "slice", "repeat", "zero", "concat3", "prefix", "suffix", "nested"]
+SHAPES = ["literal", "concat", "slice", "repeat", "zero", "concat3", "prefix", "suffix", "nested", "nested_tail", "nested_concat"]
 
 
 def build_replay():
